@@ -34,6 +34,10 @@ def main():
         meta = json.load(open(mp))
         rules = meta.get('caught_by') or []
         ex = meta.get('check_exit')
+        if meta.get('retired'):
+            rows.append('| %s | %s | retired: the pinned tree was repaired so that this change is harmless '
+                        '(was caught by %s); see meta.json |' % (d, first_line(meta).replace('|', '/'), ', '.join(rules) or '-'))
+            continue
         if ex == 1:
             verdict = 'caught: ' + ', '.join(rules)
             caught += 1
